@@ -1082,6 +1082,9 @@ def canonical(T: float) -> List[dict]:
         # … the preface arrives after the connection has been idle for 0.6 T
         {**base, "name": "h2_prior_late_preface", "proto": "h2", "h2_via": "prior", "client": [["sleep", 0.6 * T], ["h2preface"], ["h2req", "/r0", None, True]], "apps": [resp]},
     ]
+    # two requests in one read, the reader parks behind the first; its application abandons a response it has started (the
+    # connection cannot be recycled: `Closed`, the parked reader must be released and the handler must finish)
+    out.append({**base, "name": "pipelined_abandoned", "client": [["send", h0 + h1]], "apps": [app_script("raise_mid", 0)]})
     # the first bytes of the NEXT request's head arrive before the current response is complete (the application answers after
     # min(0.5 s, T / 2)) - in a read of their own or in the read that carried the first request - cut at every point of the head
     later = app_script("sleep_respond", min(0.5, T / 2))
